@@ -481,6 +481,51 @@ theorem c14_split_norecheck_orphan_forever (sid : Nat → Nat) (s s' : St) (a : 
       | (simp only [Option.some.injEq] at hs; subst hs
          refine ⟨?_, ?_, ?_, ?_, ?_, ?_⟩ <;> simp only [ne_eq, wake_wait] <;> grind)
 
+/-! ## `track` must precede `send`
+
+If the event is sent first, the pipeline thread may finish it and call `mark_as_done` before anything is tracked:
+that call is a no-op, the result is dropped, and the task the submitter tracks afterwards is never completed. -/
+
+theorem reachR_runReorder (sid : Nat → Nat) (as : List ActR) :
+    ∀ s s', ReachR sid s → runReorder sid s as = some s' → ReachR sid s' := by
+  induction as with
+  | nil => intro s s' h hr; simp only [runReorder, Option.some.injEq] at hr; exact hr ▸ h
+  | cons a as ih =>
+    intro s s' h hr
+    simp only [runReorder] at hr
+    split at hr
+    · rename_i s1 h1
+      exact ih s1 s' (ReachR.step a h h1) hr
+    · contradiction
+
+/-- S sends · P receives, finds no task (`mark_as_done` no-op) · S tracks a fresh task and waits for it. -/
+def droppedSchedule : List ActR :=
+  [.sendEarly 0, .base .recv, .base .remove, .base (.track 0), .enter 0,
+   .base (.register 0), .base (.check 0), .base (.await 0)]
+
+theorem c14_send_before_track_drops_result :
+    ∃ s, runReorder (fun _ => 5) init droppedSchedule = some s ∧
+      s.pc 0 = .wait 0 ∧ s.result 0 = none ∧ s.queue = [] ∧ s.pipe = .idle ∧ s.tasks 5 = some 0 := by
+  refine ⟨_, rfl, rfl, rfl, rfl, rfl, rfl⟩
+
+/-- Send-before-track violates "a wake-up is always on its way": the submitter waits on a live task for which no
+    event is in the channel or in the pipeline. -/
+theorem c14_send_before_track_violates : ¬ (∀ sid s, ReachR sid s → WakeComing sid s) := by
+  intro hall
+  obtain ⟨s, hr, hpc, hres, hq, hp, _⟩ := c14_send_before_track_drops_result
+  have hreach := reachR_runReorder (fun _ => 5) droppedSchedule init s ReachR.init hr
+  rcases hall _ s hreach 0 0 hpc with h | ⟨e, h⟩ | ⟨_, _, h⟩
+  · rw [hp] at h; contradiction
+  · rw [hp] at h; contradiction
+  · rcases h with ⟨e, he, _⟩ | ⟨e, he, _⟩
+    · rw [hq] at he; simp at he
+    · rw [hp] at he; contradiction
+
+/-- The order the theorems are proved for is the order of the source: in `Pipeline::process` the first of the three
+    calls is `self.tasks.track(`, then `self.pipeline_tx.send(`, and `task.ready().await` is the last expression
+    (re-extracted from p2panda/src/processor/pipeline.rs on every run; the extraction fails for any other order). -/
+theorem c14_process_order_in_source : P2.Extracted.C14.processFirstCall = "track" := rfl
+
 /-! ### … and the source really is the atomic form
 
 `trackCriticalSection` is re-extracted from p2panda/src/processor/tasks.rs on every run: the body of
